@@ -45,7 +45,7 @@ def derive_cfg(ctx, base, name, true_switches=(), overrides=None):
 
 # ---------------------------------------------------------------------------------------------- race reports
 PROTECTED_RE = re.compile(r"\.subs\b|subsLock|sessCache|\.lru\b|lpTracker|terminating|\.status\b|statusChangeBits|"
-                          r"h\.topics|hub\.topics|\.topics\.(Load|Store|Delete|Range)|t\.sessions|topic\.sessions|\.sessions\[")
+                          r"h\.topics\s*=[^=]|hub\.topics\s*=[^=]|t\.sessions|topic\.sessions|\.sessions\[")
 PROTECTED_FN = re.compile(r"\(\*Session\)\.(addSub|getSub|delSub|countSub|unsubAll)$|"
                           r"\(\*Topic\)\.(isInactive|isDeleted|isReadOnly|isLoaded|markPaused|markDeleted|markLoaded|markReadOnly|statusChangeBits|addSession|remSession)$")
 
@@ -176,9 +176,13 @@ class RunView:
                 r = k
         return r
 
-    def racing(self, user, t, g):
+    def racing(self, user, t, g, name=None, seq=None):
         """What else happened to topic t in the round of the request (description only)."""
         rnd = self.round_of(g)
+        if name is not None:
+            prev = [e for e in self.hist[name]["ev"] if e["e"] == "req" and e["t"] == t and e["seq"] < seq]
+            if prev and prev[-1]["kind"] == "unsub":
+                return "after_own_unsub"
         canon = "me:" + user if t == "me" else t
         for k, x, u in self.delreqs.get(rnd, []):
             if k == "deltopic" and x == t:
@@ -214,6 +218,12 @@ class RunView:
         if a is None:
             return "unanswered:" + evs[last]["kind"], rc
         return "answered:%s:%d" % (evs[last]["kind"], a["code"]), rc
+
+    def blocked_sig(self, name, prev, rc):
+        site = self.parked_site(name)
+        if "purgeChannels" in site:
+            return {"prev": "n/a", "input_class": "purge_vs_writer", "site": site}
+        return {"prev": prev, "input_class": rc, "site": site}
 
     def parked_site(self, name):
         for hc in self.rec["hung"]:
@@ -297,17 +307,17 @@ def describe(view, v, mon):
             for i, e in enumerate(evs):
                 if e["e"] == "req" and e["kind"] in TRACKED and e["ret"] and view.answered(evs, i) is None:
                     out.append(({"run": view.run, "sess": name, "request": {k: e[k] for k in ("kind", "t", "id", "seq")}},
-                                {"kind": e["kind"], "input_class": view.racing(h["user"], e["t"], e["g"]), "site": "reply_lost"}))
+                                {"kind": e["kind"], "input_class": view.racing(h["user"], e["t"], e["g"], name, e["seq"]), "site": "reply_lost"}))
         elif mon == "DispatchReturns":
             for e in evs:
                 if e["e"] == "req" and not e["ret"]:
                     prev, rc = view.prev_status(name, e["seq"])
                     out.append(({"run": view.run, "sess": name, "blocked_request": {k: e[k] for k in ("kind", "t", "id", "seq")}, "previous": prev},
-                                {"kind": e["kind"], "prev": prev, "input_class": rc, "site": view.parked_site(name)}))
+                                dict(view.blocked_sig(name, prev, rc), kind=e["kind"])))
         elif mon == "CleanupReturns":
             term = [e["seq"] for e in evs if e["e"] == "term"]
             prev, rc = view.prev_status(name, term[0] if term else 1 << 60)
-            out.append(({"run": view.run, "sess": name, "term": h["term"], "previous": prev}, {"prev": prev, "input_class": rc, "site": view.parked_site(name)}))
+            out.append(({"run": view.run, "sess": name, "term": h["term"], "previous": prev}, view.blocked_sig(name, prev, rc)))
         elif mon == "DeletedTopicRefuses":
             for i, e in enumerate(evs):
                 if e["e"] == "req" and e["ad"]:
@@ -367,12 +377,14 @@ def describe(view, v, mon):
             for p in v["parked"]:
                 owner = [hc["sess"] for hc in v["hung"] if hc.get("goid") == p["id"] and hc["sess"] in view.hist]
                 prev = view.prev_status(owner[0], 1 << 60)[0] if owner else "not_a_reader"
+                if "purgeChannels" in p["via"]:
+                    prev = "n/a"
                 out.append(({"run": view.run, "goroutine": p, "session": owner[0] if owner else ""}, {"site": short_site(p["via"]), "prev": prev}))
         elif mon == "NoHungClient":
             for hc in v["hung"]:
                 prev, rc = view.prev_status(hc["sess"], 1 << 60) if hc["sess"] in view.hist else ("none", "vs_none")
                 out.append(({"run": view.run, "client": hc},
-                            {"site": view.parked_site(hc["sess"]), "kind": hc["req"].split(":")[0], "prev": prev, "input_class": rc}))
+                            dict(view.blocked_sig(hc["sess"], prev, rc), kind=hc["req"].split(":")[0])))
     return out
 
 
@@ -396,7 +408,7 @@ def run(ctx):
     # ---- E2: concurrent recording under -race
     rec_path = os.path.join(ctx.scratch, "c14_e2.ndjson")
     env = {"VERIF_OUT": rec_path, "VERIF_C14_RUNS": 2500 if thorough else 110, "VERIF_C14_ROUNDS": 4, "VERIF_C14_OPS": 8,
-           "VERIF_C14_BUDGET_MS": 400000 if thorough else 38000, "GORACE": "halt_on_error=0 history_size=2"}
+           "VERIF_C14_BUDGET_MS": 330000 if thorough else 38000, "GORACE": "halt_on_error=0 history_size=2"}
     if os.environ.get("VERIF_C14_SELFTEST"):
         env["VERIF_C14_SELFTEST"] = os.environ["VERIF_C14_SELFTEST"]
     rc, out, wall = ctx.go_test("./", "TestVerifC14E2$", env=env, race=True, timeout=900)
@@ -455,6 +467,7 @@ def run(ctx):
             json.dump({"failures": ctx.failures}, fh, default=str)
         import shutil
         shutil.copy(rec_path, os.environ["VERIF_C14_DUMP"] + ".rec.ndjson")
+        shutil.copy(os.path.join(ctx.specdir, "c14_vectors.ndjson"), os.environ["VERIF_C14_DUMP"] + ".vec.ndjson")
         with open(os.environ["VERIF_C14_DUMP"] + ".gotest.log", "w") as fh:
             fh.write(out)
     for k, what in divs:
